@@ -11,7 +11,7 @@ from . import mapmodel as mm, docgen
 
 ENVELOPE = ('ISA', 'GS', 'ST', 'SE', 'GE', 'IEA', 'TA1')
 ELEMENT_KINDS = ['too-long', 'too-short', 'not-in-code-list', 'wrong-char-class', 'control-char', 'bad-date', 'bad-time',
-                 'required-removed', 'not-used-filled', 'extra-element', 'extra-component', 'syntax-note']
+                 'required-removed', 'not-used-filled', 'extra-element', 'extra-component', 'syntax-note', 'date-format-mismatch']
 SEGMENT_KINDS = ['unknown-segment', 'required-segment-removed', 'segment-over-max', 'loop-over-max', 'segment-out-of-place']
 MALFORMED_KINDS = ['junk-segment']
 KINDS = ELEMENT_KINDS + SEGMENT_KINDS
@@ -109,7 +109,7 @@ def _set(seg, ei, ci, v):
 def candidates(doc, kind):
     """list of location descriptors for this fault kind"""
     out = []
-    if kind in ELEMENT_KINDS and kind not in ('extra-element', 'extra-component', 'syntax-note'):
+    if kind in ELEMENT_KINDS and kind not in ('extra-element', 'extra-component', 'syntax-note', 'date-format-mismatch'):
         for (i, ei, ci, n, v) in element_sites(doc):
             if n.dtype is None:
                 continue
@@ -145,6 +145,19 @@ def candidates(doc, kind):
             elif kind == 'not-used-filled' and n.usage == 'N' and not present and comp_parent is None \
                     and (ei + 1) not in _syntax_positions(doc.segs[i].node):
                 out.append((i, ei, ci))
+    elif kind == 'date-format-mismatch':
+        # a date/time-period element (1251) whose value is well formed, but in another format than its qualifier (1250) declares
+        for i, s in enumerate(doc.segs):
+            if s.id in ENVELOPE:
+                continue
+            q = [(ei, c) for ei, c in enumerate(s.node.children) if c.kind == 'ele' and c.de == '1250']
+            d = [(ei, c) for ei, c in enumerate(s.node.children) if c.kind == 'ele' and c.de == '1251']
+            if not q or not d:
+                continue
+            qi, qn = q[0]
+            di, dn = d[0]
+            if qi < len(s.vals) and di < len(s.vals) and s.vals[qi][0] in docgen.FMTS and s.vals[di][0] != '':
+                out.append((i, di, None))
     elif kind == 'extra-element':
         for i, s in enumerate(doc.segs):
             if s.id not in ENVELOPE and s.node.children:
@@ -280,7 +293,23 @@ def inject(doc, kind, loc, seed):
         if v is None or v == old:
             return None
         _set(s, ei, ci, v)
+        if not any(any(x) for x in s.vals):
+            return None      # would leave an empty segment: a different fault
         exp.update(ele=ei + 1, sub=(ci + 1) if ci is not None else None, codes=sorted(EXPECT[kind]), value=v or None, local=True, level='ele')
+    elif kind == 'date-format-mismatch':
+        di = loc[1]
+        qi = [ei for ei, c in enumerate(s.node.children) if c.kind == 'ele' and c.de == '1250'][0]
+        cur = s.vals[qi][0]
+        # only pairs where a well-formed value of the other format is NOT also a value of the declared one
+        # (an 8-digit date is a valid DT, and 20040101 reads as a valid HHMMSSdd time)
+        other = {'D8': ['RD8', 'TM', 'DT'], 'RD8': ['D8', 'TM'], 'D6': ['D8', 'RD8'], 'DT': ['RD8', 'TM'], 'TM': ['RD8']}.get(cur, ['RD8'])
+        fmt = r.choice(other)
+        v = docgen.fmt_value(fmt, r)
+        n = s.node.children[di]
+        if not (n.minl <= len(v) <= n.maxl):
+            return None
+        s.vals[di] = [v]
+        exp.update(ele=di + 1, sub=None, codes=['8', '9'], value=v, local=True, level='ele')
     elif kind == 'extra-element':
         ei = loc[1]
         while len(s.vals) < ei:
